@@ -4,7 +4,7 @@
 # On success copies it to /verif/seeded/<ID>-<k>/ (patch.diff, demo.rs, meta.json skeleton).
 ID=$1; K=$2
 SRC=/tmp/mut/$ID-out
-NOTES=$SRC/NOTES.md; [ "$K" -ge 3 ] && NOTES=$SRC/NOTES2.md; [ "$K" -ge 5 ] && NOTES=$SRC/NOTES3.md; [ "$K" -ge 7 ] && NOTES=$SRC/NOTES4.md; [ "$K" -ge 9 ] && NOTES=$SRC/NOTES5.md; [ "$K" -ge 11 ] && NOTES=$SRC/NOTES6.md; [ "$K" -ge 13 ] && NOTES=$SRC/NOTES7.md
+NOTES=$SRC/NOTES.md; [ "$K" -ge 3 ] && NOTES=$SRC/NOTES2.md; [ "$K" -ge 5 ] && NOTES=$SRC/NOTES3.md; [ "$K" -ge 7 ] && NOTES=$SRC/NOTES4.md; [ "$K" -ge 9 ] && NOTES=$SRC/NOTES5.md; [ "$K" -ge 11 ] && NOTES=$SRC/NOTES6.md; [ "$K" -ge 13 ] && NOTES=$SRC/NOTES7.md; [ "$K" -ge 15 ] && NOTES=$SRC/NOTES8.md
 WT=/tmp/mut/validate-$ID-$K
 export CARGO_NET_OFFLINE=true CARGO_TARGET_DIR=${VALIDATE_TARGET:-/tmp/mut/validate-target}
 [ -f "$SRC/mutant$K.diff" ] && [ -f "$SRC/demo$K.rs" ] || { echo "missing deliverables for $ID $K"; exit 2; }
